@@ -43,6 +43,8 @@ def run(ck):
     ck.rule("C11.R17", "the max-level shortcut in front of the directive table never hides an entry: DirectiveSet::add keeps max_level >= every stored level, also on replacement (as C08.R4)", floor=1)
     ck.rule("C11.R18", "`the directive allows its level` compares levels with a correct total order (as C19.R1/R2/R4)", floor=60)
     ck.rule("C11.R19", "Targets builder steps add exactly the directive they name: with_target -> (Some(target), no field names, level), with_default -> (None, no field names, level), each through DirectiveSet::add, returning the same Targets", floor=2)
+    ck.rule("C11.R22", "a value directive matches a recorded value of either integer type: a non-negative literal is parsed as the unsigned matcher (the one both "
+            "record_u64 and record_i64 test), so the parsers try bool, then u64, then i64, then f64", floor=2)
     ck.rule("C11.R21", "a directive that matches on a field value can enable a span of any level, so with such directives the filter's hint is TRACE (else the "
             "macros' max-level gate drops the span before the filter sees its value); every enabling path of enabled() sits behind max_level (as C08.R5)", floor=3)
     ck.rule("C11.R20", "inside a matching span the enabled level is the most verbose level among *all* its matched value directives (else the span directives' base level): SpanMatcher::level takes the maximum, SpanMatch::filter yields its level exactly when matched", floor=2)
@@ -74,6 +76,7 @@ def run(ck):
     kind_rule(ck, F)
     targets_builder_rule(ck, F)
     span_matcher_level_rule(ck, F)
+    value_literal_order(ck, F)
     from rules import C08 as _C08
     _C08.r5(ck, F, rid="C11.R21")
     from rules import C19 as _C19
@@ -693,7 +696,7 @@ def r13(ck, F):
         ck.bad("C11.R13", key, where(top.raw["sp"]), "field::Match::parse is fed from Regex::find_iter (%s): the whole match includes the `,` separator" % (finds or "no captures_iter found"), fn=top.path)
 
 
-def has_dynamics_rule(ck, F):
+def has_dynamics_rule(ck, F, rid="C11.R14"):
     """`has_dynamics` is the switch in front of everything span-scoped (register_callsite, enabled, max_level_hint read it
     first). It is a cache of `!dynamics.is_empty()`: wherever a directive is added to `dynamics` the flag is set on that
     path, and where the filter is assembled the flag is computed from the assembled `dynamics`."""
@@ -722,10 +725,10 @@ def has_dynamics_rule(ck, F):
             if not setflag:
                 bad += 1
         if bad:
-            ck.bad("C11.R14", key, where(b.raw["sp"]), "%d path(s) add to `dynamics` and leave has_dynamics as it was: on a filter built without span directives the "
+            ck.bad(rid, key, where(b.raw["sp"]), "%d path(s) add to `dynamics` and leave has_dynamics as it was: on a filter built without span directives the "
                    "added one is stored (and printed by Display) but never consulted" % bad, fn=b.path)
         else:
-            ck.ok("C11.R14", key, fn=b.path)
+            ck.ok(rid, key, fn=b.path)
     # the assembling site: EnvFilter { .., has_dynamics: !dynamics.is_empty(), dynamics, .. }
     for b in F.body_list:
         if b.crate != "tracing_subscriber":
@@ -755,11 +758,11 @@ def has_dynamics_rule(ck, F):
             if not ok and "is_empty" in txt and "Not" in txt:
                 ok = True
             if ok:
-                ck.ok("C11.R14", key, fn=b.path)
+                ck.ok(rid, key, fn=b.path)
             else:
-                ck.bad("C11.R14", key, where(st.get("sp") or b.raw["sp"]), "has_dynamics is %s" % txt[:120], fn=b.path)
+                ck.bad(rid, key, where(st.get("sp") or b.raw["sp"]), "has_dynamics is %s" % txt[:120], fn=b.path)
     if n < 2:
-        ck.bad("C11.R14", "sites that add to or assemble `dynamics`", EF, "only %d site(s) found" % n)
+        ck.bad(rid, "sites that add to or assemble `dynamics`", EF, "only %d site(s) found" % n)
 
 
 def match_visitor_rule(ck, F):
@@ -886,6 +889,37 @@ def targets_builder_rule(ck, F):
             ck.bad("C11.R19", key, where(b.raw["sp"]), "; ".join(sorted(set(problems))) or "no path", fn=b.path)
         else:
             ck.ok("C11.R19", key, fn=b.path)
+
+
+def value_literal_order(ck, F, rid="C11.R22"):
+    """MatchVisitor::record_u64 tests only ValueMatch::U64, record_i64 tests I64 and (converted) U64 -- R15's tables. The
+    parsers of `[span{field=7}]` must therefore make `7` a U64: with i64 tried first a span that records the field as
+    u64 / usize never matches the directive."""
+    # (if record_u64 itself also tested the signed matcher, either order would do)
+    u64_tests_i64 = False
+    for i in F.impls:
+        if i.get("trait") == "tracing_core::field::Visit" and "field::MatchVisitor" in i["self_ty"]:
+            rb = F.body(i["methods"].get("record_u64") or "")
+            if rb is not None:
+                u64_tests_i64 = any("I64" in show(c[0]) for p in PathEval(rb).run() for c in p.conds)
+    for n in ("parse_regex", "parse_non_regex"):
+        b = F.body(E + "field::ValueMatch::" + n)
+        if not ck.anchor(rid, "ValueMatch::" + n, b):
+            continue
+        if u64_tests_i64:
+            ck.ok(rid, "ValueMatch::%s: integer literal order is immaterial (record_u64 tests both matchers)" % n, fn=b.path)
+            continue
+        seq = []
+        for x in [b] + sorted(F.closures_of(b), key=lambda c: c.path):
+            for bb, t in x.calls():
+                if t["callee"].get("method") == "parse" and t["callee"].get("targs"):
+                    seq.append(t["callee"]["targs"][0].rsplit("::", 1)[-1])
+        key = "ValueMatch::%s tries the unsigned integer before the signed one" % n
+        if "u64" in seq and "i64" in seq and seq.index("u64") < seq.index("i64") and ("f64" not in seq or seq.index("i64") < seq.index("f64")) and (seq[:1] == ["bool"]):
+            ck.ok(rid, key, fn=b.path, detail=seq)
+        else:
+            ck.bad(rid, key, where(b.raw["sp"]), "literal types are tried in the order %s: a non-negative literal becomes a signed (or float) matcher, which MatchVisitor::record_u64 "
+                   "never tests -- `[conn{id=7}]=debug` no longer applies to a span that records `id` as u64 / usize" % seq, fn=b.path)
 
 
 def span_matcher_level_rule(ck, F):
